@@ -21,12 +21,15 @@ def plans(quick):
             dict(family='chain',
                  gen=dict(steps=5, slots=2, rcs=['r1'], lists=[['r1']], force=False, fail=False, restart=False),
                  cover_limit=None, walks=0),
+            dict(family='pair',
+                 gen=dict(steps=5, slots=2, force=False, fail=False, restart=False), cover_limit=None, walks=1500, walk_len=6),
             dict(family='kinds',
                  gen=dict(steps=3, slots=1, lists=[['k1'], ['k2']], force=False, fail=False), cover_limit=80, walks=30,
                  sim=dict(num=60, depth=10, force=False, fail=False)),
         ]
     return [
         dict(family='chain', gen=dict(steps=6, slots=2, rcs=['r1'], lists=[['r1']], force=False, fail=False, restart=False)),
+        dict(family='pair', gen=dict(steps=6, slots=2, force=False, fail=False), walks=20000, walk_len=7),
         dict(family='kinds', checks=[dict(steps=5, slots=2, force=False, fail=False, count=True)],
              gen=dict(steps=4, slots=1, force=False), walks=200, sim=dict(num=800, depth=14)),
     ] + [
